@@ -28,6 +28,7 @@ Src(s) ==
     [] s.k = "breakif" -> "@breakIf(" \o Ex(s.c) \o ")"
     [] s.k = "continueif" -> "@continueIf(" \o Ex(s.c) \o ")"
     [] s.k = "reserve" -> "@reserve(\"" \o s.name \o "\")"
+    [] s.k = "use" -> "@use(\"" \o Written(s.ref) \o "\")"
     [] s.k = "insert" -> IF s.form = "block" THEN "@insert(\"" \o s.name \o "\")" \o SrcSeq(s.body) \o "@end"
                          ELSE "@insert(\"" \o s.name \o "\", " \o Ex(s.e) \o ")"
     [] s.k = "slot" -> IF s.name = "" THEN "@slot" ELSE "@slot(\"" \o s.name \o "\")"
